@@ -47,6 +47,11 @@ var _ func(int, string) GPair[int, string] = i_mkgp[int, string]
 var _ func(int) GPair[int, string] = i_gp_mixed
 var _ func(GPair[int, string]) GPair[string, int] = i_gp_swap
 var _ func(int, string, bool) GPair[GPair[int, string], bool] = i_gp_nested[int, string, bool]
+var _ func(int) int = i_ret_ident
+var _ func(int, string) frt.Tuple2[int, string] = i_ret_pair
+var _ func(string) []string = i_ret_slice
+var _ func(bool, string, string) string = i_ret_pick
+var _ func(int) int = i_ret_use
 
 func Harness_C02_generic_uses() {
 	n := verifInt("n")
